@@ -66,7 +66,8 @@ prop('C06', 'panic in user code leaves a valid buffer, nothing leaked', e1_confi
               jobs=e2_jobs([(s, 2, QN5) for s in C06_SCENS], [(s, 2, TN5) for s in C06_SCENS]))])
 prop('C07', 'all views agree; mutable views alias exactly those elements', stubs=[ROT_STUB])
 prop('C08', 'iterators obey the double-ended exact-size protocol')
-prop('C09', 'drain removes exactly the range, keeps the rest in order')
+prop('C09', 'drain removes exactly the range, keeps the rest in order', bounds=dict(E1=E1_BOUNDS, E2=E2_BOUNDS),
+     e2=[dict(tag='std', features=['std', 'alloc'], jobs=e2_jobs([('DRAIN_DROP', 3, QN5)], [('DRAIN_DROP', 3, TN5)]))])
 prop('C10', 'leaking a drain is safe')
 prop('C11', 'panics exactly when documented, otherwise total', bounds=dict(E1=E1_BOUNDS, E2=E2_BOUNDS),
      e2=[dict(tag='std', features=['std', 'alloc'], jobs=e2_jobs([(s, 0, QN5) for s in C11_SCENS], [(s, 0, TN5) for s in C11_SCENS]))])
